@@ -89,6 +89,12 @@ def random_recipe(rng, space=None):
         # a clean area strictly inside the frame
         r["cw"] = rng.randrange(1, r["w"] + 1)
         r["ch"] = rng.randrange(1, r["h"] + 1)
+        if rng.random() < 0.08:
+            # an empty clean area (nothing in 11.4.8 or the codec-features reader forbids a zero width or height)
+            if rng.random() < 0.5:
+                r["cw"] = 0
+            else:
+                r["ch"] = 0
         r["lo"] = rng.randrange(0, r["w"] - r["cw"] + 1)
         r["to"] = rng.randrange(0, r["h"] - r["ch"] + 1)
     # frame rate / aspect ratio: preset, custom, or base default
